@@ -112,18 +112,25 @@ def gen_rows(ctx, info):
            (1000, 2000, 2000), (1000, -5, 3000)]
     for sp in (NAN, PINF, NINF):
         fvs += [(sp, 2000, 3000), (1000, sp, 3000), (1000, 2000, sp)]
-    def fv_row(state, fvalid, fv, rbad, note=""):
+    INFORCE = {0: xlist((0, 0, 0)), 1: xlist((1000, 2000, 3000)), 2: xlist((0, 0, 0)), 3: xlist((1000, 2000, 3000))}   # calloc / fvec
+    def fv_row(state, fvalid, fv, rbad, note="", merror=False):
+        sm = "(mknsum 0 2 2 3 %s %s (mknew [] 0 0 0 None))" % (b(fvalid), b(merror))
         rows.append(Row("set_fv", 0, [state, 0] + list(fv),
-                        "crun (env_set_fv_x HOk %s (Some %s) %s) gen_contract_vnacal_new_set_frequency_vector"
-                        % (NSUM % b(fvalid), xlist(fv), b(rbad)), "vnacal_new_set_frequency_vector(%s)%s" % (fv, note)))
-        rows[-1].doc = "doc_set_fv %s (Some %s) %s" % (NSUM % b(fvalid), xlist(fv), b(rbad))
+                        "crun (env_set_fv_x HOk %s %s (Some %s) %s) gen_contract_vnacal_new_set_frequency_vector"
+                        % (sm, INFORCE[state], xlist(fv), b(rbad)), "vnacal_new_set_frequency_vector(%s)%s" % (fv, note)))
+        rows[-1].doc = "doc_set_fv %s %s (Some %s) %s" % (sm, INFORCE[state], xlist(fv), b(rbad))
     for fvalid in (0, 1):
         for fv in fvs:
             fv_row(fvalid, fvalid, fv, False)
         rows.append(Row("set_fv", 0, [fvalid, 1, 0, 0, 0],
-                        "crun (env_set_fv_x HOk %s None false) gen_contract_vnacal_new_set_frequency_vector" % (NSUM % b(fvalid)),
+                        "crun (env_set_fv_x HOk %s [] None false) gen_contract_vnacal_new_set_frequency_vector" % (NSUM % b(fvalid)),
                         "vnacal_new_set_frequency_vector(NULL)"))
-        rows[-1].doc = "doc_set_fv %s None false" % (NSUM % b(fvalid))
+        rows[-1].doc = "doc_set_fv %s [] None false" % (NSUM % b(fvalid))
+    # a measurement error model is set (frequencies 1000, 2000, 3000 MHz in force): the same vector is accepted, any other
+    # refused (fix DM90; vnacal_new(3): set_frequency_vector must be called before set_m_error)
+    for fv in [(1000, 2000, 3000), (1000, 2000, 3001), (999, 2000, 3000), (1000, 1500, 3000), (10000, 20000, 30000), (1000, 2000, 2000),
+               (1000, 2000, NAN), (3000, 2000, 1000), (0, 2000, 3000), (1000, 2000, PINF)]:
+        fv_row(3, 1, fv, False, " with a measurement error model set on 1000, 2000, 3000 MHz", merror=True)
     # a vector parameter with the range 1000..3000 MHz is in use by a standard: _vnacal_new_check_all_frequency_ranges decides
     # (atom:parameter_ranges_bad; the frequencies keep 5 MHz distance from (1 +- 1/100) x end of the parameter's range)
     for fv in [(1000, 2000, 3000), (995, 2000, 3005), (500, 2000, 3000), (1000, 2000, 4000), (100, 200, 300), (1500, 2000, 2500),
@@ -133,7 +140,7 @@ def gen_rows(ctx, info):
         fv_row(2, 0, fv, bad, " with a vector parameter 1000..3000 MHz in use")
     for h in (1, 2):
         rows.append(Row("set_fv", h, [1, 0, 1000, 2000, 3000],
-                        "crun (env_set_fv_x %s %s (Some %s) false) gen_contract_vnacal_new_set_frequency_vector"
+                        "crun (env_set_fv_x %s %s [] (Some %s) false) gen_contract_vnacal_new_set_frequency_vector"
                         % (HND[h], NSUM % "true", xlist((1000, 2000, 3000))), "vnacal_new_set_frequency_vector"))
     # ---- set_m_error (env_set_m_error_x; documented column: doc_set_m_error, written from vnacal_new(3))
     def xo(l, den):
